@@ -171,3 +171,46 @@ def _(cls, raw_text):
 def _(cls, value, indent):
     modifies('Token._raw_text@fresh', 'Token.store_handle@fresh', 'Token.size@fresh', 'BlockComment._value@fresh', 'BlockComment._indent@fresh', 'BlockComment._claimed@fresh', 'Position.line@fresh', 'Position.column@fresh')
     ensures(result != None and fresh(result) and result._raw_text == bc_fmt(indent, value) and result._indent == indent and result._value == value and result.store_handle is None and TI(result))
+
+# ---- getters: pure reads of the stored field (C04: nothing is written; C09/C12: what the setter stored is what is read)
+@contract('Token.raw_text')
+def _(self):
+    requires(self != None)
+    modifies()
+    ensures(result == self._raw_text)
+
+@contract('SingleValueRawTokenModel.value')
+def _(self):
+    requires(self != None)
+    modifies()
+    ensures(result == self._value)
+
+@contract('BlockComment.value')
+def _(self):
+    requires(self != None)
+    modifies()
+    ensures(result == self._value)
+
+@contract('BlockComment.indent')
+def _(self):
+    requires(self != None)
+    modifies()
+    ensures(result == self._indent)
+
+@contract('BlockComment.claimed')
+def _(self):
+    requires(self != None)
+    modifies()
+    ensures(result == self._claimed)
+
+@contract('SingleValueRawTokenModel.raw_text')
+def _(self):
+    requires(self != None)
+    modifies()
+    ensures(result == self._raw_text)
+
+@contract('BlockComment.raw_text')
+def _(self):
+    requires(self != None)
+    modifies()
+    ensures(result == self._raw_text)
